@@ -19,7 +19,7 @@ Inductive obs :=
 | OGate (s : nat) (it : item) (r : gres)
 | OWake (s : nat)
 | OEarlyWake (s : nat)
-| OHandle (s : nat) (ok : bool) (evs : list ev)
+| OHandle (hf : bool) (s : nat) (ok : bool) (evs : list ev)  (* hf: the user handler fails its next call if it comes now *)
 | OTimerFire
 | OTimeout (evs : list ev)
 | OCancel (s : nat)     (* the context of the parked sender's call was cancelled *)
@@ -108,14 +108,14 @@ Fixpoint replay (c : cfg) (x : st) (tr : list obs) : list N :=
           end
       | OWake s => match step c x (Wake s) with None => [2] | Some x' => replay c x' tr' end
       | OEarlyWake s => [2]
-      | OHandle s ok evs =>
-          match step c x (Handle s) with
+      | OHandle hf s ok evs =>
+          match step c x (if hf then HandleFail s else Handle s) with
           | None => [6]
           | Some x' =>
               let mevs := step_evs x x' in
-              (* the reply: a rejected barrier, or the sink's error out of a flush (which a barrier's handler ignores) *)
+              (* the reply: a rejected barrier, a failed flush in front of the cut, or the sink's error out of a flush *)
               let mok := match nth_error (modes x) s with
-                         | Some (Passed (IBar _)) => last_ok x x'
+                         | Some (Passed (IBar _)) => last_ok x x' && negb (failed x')
                          | _ => negb (errored (dt x) (dt x'))
                          end in
               (if Bool.eqb ok mok then [] else [3]) ++
@@ -211,7 +211,7 @@ Fixpoint spec (p : sp) (tr : list obs) : list N :=
       match o with
       | OGate s it _ =>
           spec (mkSp (set_nth s (nth_l (deliv p) s ++ [it]) (deliv p)) (nhand p) (cuts p) (cur p) (called p) (relw p)) tr'
-      | OHandle s ok evs =>
+      | OHandle hf s ok evs =>
           let k := nth s (nhand p) O in
           let it := nth k (nth_l (deliv p) s) (IWm 0) in
           let nh := set_nth s (S k) (nhand p) in
@@ -223,7 +223,11 @@ Fixpoint spec (p : sp) (tr : list obs) : list N :=
                 let p1 := if ok then mkSp (deliv p) nh (set_nth s (Some k) (cuts p))
                                           (match cur p with None => Some cid | some => some end) (called p) (relw p)
                           else mkSp (deliv p) nh (cuts p) (cur p) (called p) (relw p) in
-                (p1, if Bool.eqb ok should then [] else [13])
+                (* the flush in front of the cut may fail (handler failure scheduled now, or an armed sink fault consumed
+                   by a handler call of this action): then the last barrier's reply is that error and nothing is cut *)
+                let last := all_cut (mkSp (deliv p) nh (set_nth s (Some k) (cuts p)) (cur p) (called p) (relw p)) in
+                let may_fail := should && last && (hf || (fault_armed p && existsb is_call evs)) in
+                (p1, if Bool.eqb ok should then [] else if negb ok && may_fail then [] else [13])
             | _ => (mkSp (deliv p) nh (cuts p) (cur p) (called p) (relw p),
                     (* an error reply to anything but a barrier is only the sink's injected error out of a flush *)
                     if ok then [] else if fault_armed p && existsb is_call evs then [] else [13])
